@@ -111,6 +111,8 @@ func (p *Prog) JS() string {
 		sb.WriteString("return [1];\n")
 	case "fresh":
 		sb.WriteString("return {\"fresh\": true};\n")
+	case "nan":
+		sb.WriteString("bs[\"bad\"] = 0/0;\nreturn bs;\n")
 	default:
 		sb.WriteString("return bs;\n")
 	}
@@ -233,7 +235,7 @@ func (g *G) Action(guard bool, mode string) *Prog {
 			}
 		default:
 			f = nil
-			p.Ret = g.PickS("scalar", "array", "null")
+			p.Ret = g.PickS("scalar", "array", "null", "nan")
 		}
 		if f != nil {
 			at := g.Intn(len(p.Ops) + 1)
